@@ -149,8 +149,37 @@ class FakeSocket:
     def send(self, data):
         return FakeSockFile.write(_Raw(self.ep), data)
 
+    sendall = send
+
     def recv(self, n):
+        if self.closed:
+            raise OSError(errno.EBADF, 'Bad file descriptor')
         return FakeSockFile.read(_Raw(self.ep), n)
+
+    def recv_into(self, buf, nbytes=0):
+        data = self.recv(nbytes or len(buf))
+        if not all(isinstance(b, int) for b in data):
+            from .core import Unmodelled
+            raise Unmodelled('recv_into a real buffer with symbolic bytes')
+        buf[:len(data)] = bytes(data)
+        return len(data)
+
+    def shutdown(self, how):
+        # both directions are treated alike: the peer reads end-of-file, writes to it fail
+        self.ep.released = True
+
+    def settimeout(self, t):
+        pass
+
+    def getsockname(self):
+        return self.bound or ('0.0.0.0', 0)
+
+    def getpeername(self):
+        return ('peer', 0)
+
+    def __getattr__(self, name):
+        from .core import Unmodelled
+        raise Unmodelled('socket.%s is not modelled by the harness double' % name)
 
 
 class _Raw:
@@ -174,13 +203,32 @@ def queue_connection(listener, addr=('client', 5000)):
     return FakeSocket(ep=b)
 
 
-class FakeSocketModule:
+class _SocketModuleMeta(type):
+    def __getattr__(cls, name):
+        import socket as real
+        v = getattr(real, name, None)
+        if isinstance(v, int) or (isinstance(v, type) and issubclass(v, BaseException)):
+            return v                       # constants and exception classes of the real module
+        from .core import Unmodelled
+        raise Unmodelled('socket.%s is not modelled by the harness double' % name)
+
+
+class FakeSocketModule(metaclass=_SocketModuleMeta):
     AF_INET, SOCK_STREAM, SOL_SOCKET, SO_REUSEADDR = AF_INET, SOCK_STREAM, SOL_SOCKET, SO_REUSEADDR
     socket = FakeSocket
     error = OSError
+    timeout = TimeoutError
 
 
-class FakeSelectModule:
+class _SelectModuleMeta(type):
+    def __getattr__(cls, name):
+        from .core import Unmodelled
+        raise Unmodelled('select.%s is not modelled by the harness double' % name)
+
+
+class FakeSelectModule(metaclass=_SelectModuleMeta):
+    error = OSError
+
     @staticmethod
     def select(rlist, wlist, xlist, timeout=None):
         out = []
